@@ -12,7 +12,7 @@ Exit 0 iff the property is shown to hold on the current /repo working tree:
   * monitors accept every implementation trace.
 Otherwise prints `VIOLATION property=<id> replay=<path>` and exits 1.
 """
-import argparse, fcntl, hashlib, json, os, re, shutil, subprocess, sys, time, glob
+import argparse, fcntl, hashlib, json, os, re, shutil, struct, subprocess, sys, time, glob
 from concurrent.futures import ThreadPoolExecutor
 
 VERIF = os.path.dirname(os.path.dirname(os.path.abspath(__file__)))
@@ -62,7 +62,15 @@ def coq(t):
         if "n" in t:
             return "%d%%nat" % t["n"]
         if "f" in t:
-            return "(f64 %s)" % t["f"]
+            # exact binary64: a hexadecimal float literal (parsed natively by Coq, exact for every finite value
+            # incl. -0 and subnormals); NaN payloads and anything unusual stay as the bit pattern
+            bits = int(t["f"])
+            x = struct.unpack("<d", struct.pack("<Q", bits))[0]
+            if x != x:
+                return "(f64 %s)" % t["f"]
+            if x in (float("inf"), float("-inf")):
+                return "PrimFloat.infinity" if x > 0 else "PrimFloat.neg_infinity"
+            return "(%s)%%float" % x.hex()
         if "t" in t:
             return "(" + ", ".join(coq(x) for x in t["t"]) + ")"
         if "c" in t:
